@@ -55,11 +55,14 @@ type Exec struct {
 	notes []string
 	topMods []*Ptr
 	topStar bool
+	ghostSorts map[string]string
+	entryAlloc Term
+	ghostByType map[string][]*ssa.Function
 }
 
 func newExec(w *World, cs *ContractSet, fnKey string, props []string) *Exec {
 	m := newSMT()
-	return &Exec{w: w, cs: cs, smt: m, ti: newTypeInfo(m), fnKey: fnKey, props: props, oblNames: map[string]int{}, trustSeen: map[string]bool{}, recFns: map[string]bool{}}
+	return &Exec{w: w, cs: cs, smt: m, ti: newTypeInfo(m), fnKey: fnKey, props: props, ghostSorts: map[string]string{}, oblNames: map[string]int{}, trustSeen: map[string]bool{}, recFns: map[string]bool{}}
 }
 
 func (e *Exec) unsupported(format string, a ...interface{}) {
@@ -221,18 +224,48 @@ func (e *Exec) loadLeaf(st *State, p *Ptr) Term {
 	case pHeap:
 		if _, isStruct := p.Root.Underlying().(*types.Struct); isStruct {
 			name, s := e.ti.fieldComp(p.Root, p.Path)
+			e.wfInitial(name, false, arraySort(SInt, s), p.Type)
 			arr := e.heapComp(st, name, SInt, arraySort(SInt, s))
 			return tSelect(arr, p.Ref, s)
 		}
 		name, s := e.ti.cellComp(p.Root)
+		e.wfInitial(name, false, arraySort(SInt, s), p.Type)
 		arr := e.heapComp(st, name, SInt, arraySort(SInt, s))
 		return tSelect(arr, p.Ref, s)
 	case pElem:
 		name, s := e.ti.elemComp(p.Root, p.Path)
+		e.wfInitial(name, true, arraySort(SInt, arraySort(SInt, s)), p.Type)
 		arr := e.heapComp(st, name, SInt, arraySort(SInt, arraySort(SInt, s)))
 		return tSelect(tSelect(arr, p.Ref, arraySort(SInt, s)), p.Idx, s)
 	}
 	panic("loadLeaf")
+}
+
+// wfInitial states, once per heap component, that the heap *at function entry* is well typed:
+// every reference stored in it was allocated before entry, integers are within their type's range.
+func (e *Exec) wfInitial(name string, elem bool, sort string, t types.Type) {
+	key := "wf:" + name
+	if e.smt.axiomDone[key] || e.entryAlloc.S == "" {
+		return
+	}
+	e.smt.axiomDone[key] = true
+	sym := "H." + smtIdent(name) + "!0"
+	e.smt.declare(sym, sort)
+	tmp := &State{alloc: e.entryAlloc}
+	var sel Term
+	var bound string
+	if elem {
+		sel = Term{fmt.Sprintf("(select (select %s wa) wi)", sym), e.ti.sortOf(t)}
+		bound = "(wa Int) (wi Int)"
+	} else {
+		sel = Term{fmt.Sprintf("(select %s wr)", sym), e.ti.sortOf(t)}
+		bound = "(wr Int)"
+	}
+	f := e.wellTyped(tmp, t, sel)
+	if f.S == "true" {
+		return
+	}
+	e.smt.axioms = append(e.smt.axioms, fmt.Sprintf("(assert (forall (%s) (! %s :pattern (%s))))", bound, f.S, sel.S))
 }
 
 func (e *Exec) loadStruct(st *State, p *Ptr) Term {
@@ -353,6 +386,11 @@ func (e *Exec) loadGlobal(st *State, p *Ptr) Value {
 			rt = ft
 		}
 		return t
+	}
+	if pt, ok := et.(*types.Pointer); ok {
+		if n, ok := pt.Elem().(*types.Named); ok && n.Obj().Pkg() != nil && n.Obj().Pkg().Path() == "regexp" && n.Obj().Name() == "Regexp" {
+			e.regexpGlobalFacts(g, t)
+		}
 	}
 	if types.Identical(et, errorType) {
 		// package-level error sentinels: non-nil and pairwise distinct (assumed; they are initialised
